@@ -53,6 +53,10 @@ pub enum Family {
     /// `theta_bin` of 230: r = 27.3 cos(alpha) / m for integers m, phi = theta - alpha;
     /// alpha_class 0: 0, 1: +60 deg, 2: -60 deg, 3: one generated angle per group
     HoughEdge { theta_bin: u8, alpha_class: u8 },
+    /// inner part exactly radial (at azimuth 0, pi/2, pi, -pi/2 or a generated
+    /// one), outer part bending away: not collinear, but several points share
+    /// an azimuth - and for azimuth 0 a Cartesian coordinate - bit for bit
+    Kinked { axis: u8, straight_percent: u8 },
 }
 
 #[derive(Clone, Debug, PartialEq, Serialize, Deserialize)]
@@ -176,6 +180,24 @@ fn points_as_generated(g: &Group) -> Vec<SpacePoint> {
                 })
                 .collect()
         }
+        Family::Kinked { axis, straight_percent } => {
+            let base = match axis % 5 {
+                0 => 0.0,
+                1 => PI / 2.0,
+                2 => PI,
+                3 => -PI / 2.0,
+                _ => phi0,
+            };
+            let straight = (n * (straight_percent.clamp(10, 90) as u64) / 100).max(1);
+            let bend = if mix(s, 4) & 1 == 0 { 0.5 } else { -0.5 };
+            (0..n)
+                .map(|i| {
+                    let r = 0.11 + 0.07 * i as f64 / n.max(1) as f64;
+                    let phi = if i < straight { base } else { base + bend * ((i - straight + 1) as f64 / n as f64).powi(2) };
+                    sp(r, phi, z0 + 0.004 * i as f64)
+                })
+                .collect()
+        }
         Family::Staircase { xy_mm, z_mm } => {
             let rho = 0.1 + 0.05 * unit(s, 3);
             let (cx, cy) = (rho * phi0.cos(), rho * phi0.sin());
@@ -222,6 +244,7 @@ pub fn family() -> impl Strategy<Value = Family> {
         1 => (3u8..=12).prop_map(|shift| Family::Dyadic { shift }),
         1 => staircase(),
         1 => (0u8..230, 0u8..4).prop_map(|(theta_bin, alpha_class)| Family::HoughEdge { theta_bin, alpha_class }),
+        1 => (0u8..5, 10u8..=90).prop_map(|(axis, straight_percent)| Family::Kinked { axis, straight_percent }),
     ]
 }
 
